@@ -46,7 +46,7 @@ template<> struct elem_traits<NestElem> {
 };
 
 // the instrumented element type serializes its value
-template<class Archive, bool N> void serialize(Archive& ar, TrackedT<N>& t, unsigned /*version*/) { ar& boost::serialization::make_nvp("v", t.v); }
+template<class Archive, bool N, bool A> void serialize(Archive& ar, TrackedT<N, A>& t, unsigned /*version*/) { ar& boost::serialization::make_nvp("v", t.v); }
 template<class Archive> void serialize(Archive& ar, Triv& t, unsigned /*version*/) { ar& boost::serialization::make_nvp("v", t.v); }
 template<class Archive> void serialize(Archive& ar, StrElem& t, unsigned /*version*/) { ar& boost::serialization::make_nvp("s", t.s); }
 template<class Archive> void serialize(Archive& ar, NestElem& t, unsigned /*version*/) { ar& boost::serialization::make_nvp("a", t.a); }
